@@ -53,6 +53,23 @@ func (e *enc) call(b *ssa.BasicBlock, c *ssa.Call) {
 			if _, isTuple := c.Type().(*types.Tuple); !isTuple {
 				e.callResults[fmt.Sprintf("%s#%d", k, e.callOrd[k])] = cval{n, e.sortOf(c.Type()), c.Type()}
 			}
+			// "after call N of key": clauses about the state and the result right after the call
+			ex := map[string]cval{}
+			if tt, isTuple := c.Type().(*types.Tuple); isTuple {
+				for i := 0; i < tt.Len(); i++ {
+					ex[fmt.Sprintf("result.%d", i)] = cval{fmt.Sprintf("%s.c%d", n, i), e.sortOf(tt.At(i).Type()), tt.At(i).Type()}
+				}
+				if tt.Len() > 0 {
+					ex["result"] = ex["result.0"]
+				}
+			} else {
+				ex["result"] = cval{n, e.sortOf(c.Type()), c.Type()}
+				ex["result.0"] = ex["result"]
+			}
+			e.siteExtra = ex
+			e.siteAt = nil
+			e.siteAsserts(c, fmt.Sprintf("after call %d of %s", e.callOrd[k], k), nil, nil, e.reach[b])
+			e.siteExtra = nil
 		}
 	}
 }
